@@ -1,4 +1,5 @@
 import MaddyVerif.Model.Queue
+import MaddyVerif.Model.QueueHop
 /-!
 # C01 — every queued recipient ends in exactly one terminal outcome
 
@@ -582,5 +583,482 @@ def demoPlan : Nat → Plan := fun i =>
 example : commitCount 1 (run 3 .partialD true demoPlan 3 0 ⟨[1, 2, 3], fun _ => 0⟩) = 1 ∧
           commitCount 2 (run 3 .partialD true demoPlan 3 0 ⟨[1, 2, 3], fun _ => 0⟩) = 1 ∧
           reportCount 3 (run 3 .partialD true demoPlan 3 0 ⟨[1, 2, 3], fun _ => 0⟩) = 1 := by decide
+
+end MaddyVerif.C01
+
+/-! ## the queue on a real forwarding target against a misbehaving next hop (`Model/QueueHop.lean`) -/
+namespace MaddyVerif.C01
+open MaddyVerif.Queue MaddyVerif.QueueHop
+
+theorem FCls.toCls_isOk (f : FCls) : f.toCls.isOk = false := by cases f <;> rfl
+
+theorem lookupCls_cons (r : Addr) (cl : Cls) (l : List (Addr × Cls)) (x : Addr) :
+    lookupCls ((r, cl) :: l) x = if x = r then cl else lookupCls l x := by
+  unfold lookupCls
+  by_cases h : x = r
+  · subst h; simp [List.find?]
+  · have : (r == x) = false := by simpa using fun h' => h h'.symm
+    simp [List.find?, this, h]
+
+/-- `C.Rcpt`: the connection's recipient list grows by exactly the accepted recipient. -/
+theorem rcptOn_acc (s : Script) (lr : Addr → Bool) (c : Sess) (r : Addr) :
+    (rcptOn s lr c r).2.acc = c.acc ++ (if (rcptOn s lr c r).1.isOk then [r] else []) := by
+  unfold rcptOn
+  split
+  · simp [Cls.isOk]
+  · split
+    · simp [Cls.isOk]
+    · split
+      · simp [FCls.toCls_isOk]
+      · split
+        · simp [FCls.toCls_isOk]
+        · simp [Cls.isOk]
+
+theorem stepRcpt_acc (s : Script) (lr : Addr → Bool) (st : DState) (r : Addr) :
+    (sessOf (stepRcpt s lr st r).2).acc =
+      (sessOf st).acc ++ (if (stepRcpt s lr st r).1.isOk then [r] else []) := by
+  unfold stepRcpt
+  cases hs : st.sess with
+  | some c =>
+    simp only [sessOf, Option.getD_some, hs]
+    exact rcptOn_acc s lr c r
+  | none =>
+    simp only
+    split
+    · simp [sessOf, hs, FCls.toCls_isOk]
+    · simp only [sessOf, Option.getD_some, hs, Option.getD_none]
+      have := rcptOn_acc s lr ⟨true, []⟩ r
+      simpa using this
+
+
+theorem lookupCls_not_mem (l : List (Addr × Cls)) (x : Addr) (h : x ∉ l.map (·.1)) :
+    lookupCls l x = .ok := by
+  induction l with
+  | nil => rfl
+  | cons p t ih =>
+    obtain ⟨a, c⟩ := p
+    simp at h
+    rw [lookupCls_cons]
+    simp [h.1]
+    exact ih (by simpa using h.2)
+
+/-- The RCPT phase: one result per recipient, in order; the connection holds exactly the
+recipients whose `AddRcpt` returned nil, in order. -/
+theorem rcptPhase_spec (s : Script) (lr : Addr → Bool) :
+    ∀ (l : List Addr) (st : DState), l.Nodup →
+      (rcptPhase s lr st l).2.map (·.1) = l ∧
+      (sessOf (rcptPhase s lr st l).1).acc =
+        (sessOf st).acc ++ l.filter (fun r => (lookupCls (rcptPhase s lr st l).2 r).isOk) := by
+  intro l
+  induction l with
+  | nil => intro st _; simp [rcptPhase]
+  | cons r rest ih =>
+    intro st hnd
+    have hnd' : rest.Nodup := (List.nodup_cons.mp hnd).2
+    have hr : r ∉ rest := (List.nodup_cons.mp hnd).1
+    have IH := ih (stepRcpt s lr st r).2 hnd'
+    have hstep := stepRcpt_acc s lr st r
+    simp only [rcptPhase]
+    refine ⟨by simp [IH.1], ?_⟩
+    rw [IH.2, hstep]
+    have hfilt : rest.filter (fun x => (lookupCls ((r, (stepRcpt s lr st r).1) ::
+          (rcptPhase s lr (stepRcpt s lr st r).2 rest).2) x).isOk) =
+        rest.filter (fun x => (lookupCls (rcptPhase s lr (stepRcpt s lr st r).2 rest).2 x).isOk) := by
+      apply List.filter_congr
+      intro x hx
+      rw [lookupCls_cons]
+      have : x ≠ r := fun h => hr (h ▸ hx)
+      simp [this]
+    rw [List.filter_cons, lookupCls_cons]
+    simp only [↓reduceIte]
+    rw [hfilt]
+    split <;> simp
+
+
+theorem lookupCls_map_const (l : List Addr) (cl : Cls) (r : Addr) :
+    lookupCls (l.map (fun x => (x, cl))) r = if r ∈ l then cl else .ok := by
+  induction l with
+  | nil => rfl
+  | cons a t ih =>
+    simp only [List.map_cons, lookupCls_cons, ih, List.mem_cons]
+    by_cases h : r = a <;> simp [h]
+
+theorem lmtpWalk_spec (s : Script) (r : Addr) :
+    ∀ (l : List Addr) (n : Option Nat), l.Nodup →
+      (lmtpWalk s n l).1.map (·.1) = l ∧
+      (lmtpWalk s n l).2.count r =
+        if r ∈ l ∧ (lookupCls (lmtpWalk s n l).1 r).isOk then 1 else 0 := by
+  intro l
+  induction l with
+  | nil => intro n _; simp [lmtpWalk]
+  | cons a t ih =>
+    intro n hnd
+    have hnd' : t.Nodup := (List.nodup_cons.mp hnd).2
+    have ha : a ∉ t := (List.nodup_cons.mp hnd).1
+    -- a recipient of the tail is not `a`
+    have hne : r ∈ t → r ≠ a := fun h h' => ha (h' ▸ h)
+    by_cases h0 : n = some 0
+    · subst h0
+      have IH := ih (some 0) hnd'
+      simp only [lmtpWalk]
+      refine ⟨by simp [IH.1], ?_⟩
+      rw [IH.2, lookupCls_cons]
+      by_cases hra : r = a
+      · subst hra; simp [ha, Cls.isOk]
+      · simp [hra]
+    · have IH := ih (n.map (· - 1)) hnd'
+      have hunf : lmtpWalk s n (a :: t) =
+          (match s.lmtpSt a with
+           | none => ((a, Cls.ok) :: (lmtpWalk s (n.map (· - 1)) t).1, a :: (lmtpWalk s (n.map (· - 1)) t).2)
+           | some f => ((a, f.toCls) :: (lmtpWalk s (n.map (· - 1)) t).1, (lmtpWalk s (n.map (· - 1)) t).2)) := by
+        cases n with
+        | none => cases h : s.lmtpSt a <;> simp [lmtpWalk, h]
+        | some k =>
+          cases k with
+          | zero => exact absurd rfl h0
+          | succ k => cases h : s.lmtpSt a <;> simp [lmtpWalk, h]
+      rw [hunf]
+      cases hst : s.lmtpSt a with
+      | none =>
+        simp only
+        refine ⟨by simp [IH.1], ?_⟩
+        rw [List.count_cons, IH.2, lookupCls_cons]
+        by_cases hra : r = a
+        · subst hra; simp [ha, Cls.isOk]
+        · have : (a == r) = false := by simpa using fun h => hra h.symm
+          simp [hra, this]
+      | some f =>
+        simp only
+        refine ⟨by simp [IH.1], ?_⟩
+        rw [IH.2, lookupCls_cons]
+        by_cases hra : r = a
+        · subst hra; simp [ha, FCls.toCls_isOk]
+        · simp [hra]
+
+/-- The DATA phase on one connection: the hop acknowledges exactly the accepted recipients for
+which the target reports no error, each once. -/
+theorem dataPhase_spec (tk : TKind) (s : Script) (c : Sess) (hnd : c.acc.Nodup) (r : Addr) :
+    (dataPhase tk s c).2.count r =
+      if r ∈ c.acc ∧ (lookupCls (dataPhase tk s c).1 r).isOk then 1 else 0 := by
+  have hconst : ∀ cl : Cls, cl.isOk = false →
+      ([] : List Addr).count r = if r ∈ c.acc ∧ (lookupCls (c.acc.map (fun x => (x, cl))) r).isOk then 1 else 0 := by
+    intro cl hcl
+    rw [lookupCls_map_const]
+    by_cases h : r ∈ c.acc <;> simp [h, hcl]
+  have hsmtp : (c.acc.map (fun x => (x, dataCls s c)), if (dataCls s c).isOk then c.acc else []).2.count r =
+      if r ∈ c.acc ∧ (lookupCls (c.acc.map (fun x => (x, dataCls s c)), if (dataCls s c).isOk then c.acc else []).1 r).isOk
+        then 1 else 0 := by
+    simp only [lookupCls_map_const]
+    by_cases hok : (dataCls s c).isOk = true
+    · simp only [hok, ↓reduceIte]
+      rw [List.Nodup.count hnd]
+      by_cases h : r ∈ c.acc <;> simp [h, hok]
+    · simp only [hok]
+      by_cases h : r ∈ c.acc <;> simp [h, hok]
+  cases tk with
+  | remote => exact hsmtp
+  | smtp => exact hsmtp
+  | lmtp =>
+    unfold dataPhase
+    simp only
+    split
+    · exact hconst _ rfl
+    · split
+      · exact hconst _ (FCls.toCls_isOk _)
+      · exact (lmtpWalk_spec s r c.acc s.lmtpDrop hnd).2
+
+def bodyOk (k : Kind) (p : Plan) (r : Addr) : Bool :=
+  match k with
+  | .atomic => p.body.isOk
+  | .partialD => (p.bodyRc r).isOk
+
+theorem deliver_errs_none (k : Kind) (p : Plan) (to : List Addr) (r : Addr)
+    (hs : p.start = .ok) (hc : p.commit = .ok) (hr : r ∈ to) :
+    ((deliver k p to).1 r).isNone = ((p.rcpt r).isOk && bodyOk k p r) := by
+  have hs' : p.start.isOk = true := by rw [hs]; rfl
+  have hc' : p.commit.isOk = true := by rw [hc]; rfl
+  unfold deliver
+  simp only [hs', hc', Bool.not_true, Bool.false_eq_true, ↓reduceIte]
+  by_cases hacc : (to.filter (fun r => (p.rcpt r).isOk)).isEmpty = true
+  · have hall : (p.rcpt r).isOk = false := by
+      have := List.isEmpty_iff.mp hacc
+      have h2 : r ∉ to.filter (fun r => (p.rcpt r).isOk) := by rw [this]; simp
+      simpa [List.mem_filter, hr] using h2
+    simp [hacc, hr, hall]
+  · simp only [hacc]
+    cases k with
+    | atomic =>
+      by_cases hb : p.body.isOk = true
+      · simp only [hb, bodyOk, Bool.not_true, Bool.false_eq_true, ↓reduceIte]
+        split <;> (by_cases hrc : (p.rcpt r).isOk = true <;> simp [hr, hrc])
+      · have hb' : p.body.isOk = false := by simpa using hb
+        simp only [hb', bodyOk, Bool.not_false, Bool.false_eq_true, ↓reduceIte]
+        split <;> (by_cases hrc : (p.rcpt r).isOk = true <;> simp [hr, hrc, List.mem_filter])
+    | partialD =>
+      simp only [bodyOk, Bool.false_eq_true, ↓reduceIte]
+      split <;> (by_cases hrc : (p.rcpt r).isOk = true <;>
+        by_cases hbr : (p.bodyRc r).isOk = true <;> simp [hr, hrc, hbr, List.mem_filter])
+
+
+theorem count_flatMap_zero (l : List Nat) (f : Nat → List Addr) (r : Addr)
+    (hf : ∀ d ∈ l, r ∉ f d) : (l.flatMap f).count r = 0 := by
+  induction l with
+  | nil => rfl
+  | cons a t ih =>
+    simp only [List.flatMap_cons, List.count_append]
+    rw [ih (fun d hd => hf d (by simp [hd])), List.count_eq_zero_of_not_mem (hf a (by simp))]
+
+theorem count_flatMap_unique (l : List Nat) (f : Nat → List Addr) (r : Addr) (d0 : Nat)
+    (hl : l.Nodup) (hd : d0 ∈ l) (hf : ∀ d ∈ l, d ≠ d0 → r ∉ f d) :
+    (l.flatMap f).count r = (f d0).count r := by
+  induction l with
+  | nil => cases hd
+  | cons a t ih =>
+    simp only [List.flatMap_cons, List.count_append]
+    have hnd := List.nodup_cons.mp hl
+    by_cases ha : a = d0
+    · subst ha
+      rw [count_flatMap_zero t f r (fun d hd' => hf d (by simp [hd']) (fun h => hnd.1 (h ▸ hd')))]
+      simp
+    · have hd' : d0 ∈ t := by
+        rcases List.mem_cons.mp hd with h | h
+        · exact absurd h.symm ha
+        · exact h
+      rw [ih hnd.2 hd' (fun d hdt => hf d (by simp [hdt])),
+        List.count_eq_zero_of_not_mem (hf a (by simp) ha)]
+      simp
+
+theorem initState_acc (tk : TKind) : (sessOf (initState tk)).acc = [] := by
+  cases tk <;> rfl
+
+/-- What one hop holds after the RCPT phase of an attempt. -/
+theorem hopRun_acc (tk : TKind) (s : Script) (lr : Addr → Bool) (dom : Addr → Nat) (to : List Addr)
+    (hnd : to.Nodup) (d : Nat) :
+    (sessOf (hopRun tk s lr dom to d).1).acc =
+      (to.filter (fun r => dom r == d)).filter (fun r => (lookupCls (hopRun tk s lr dom to d).2 r).isOk) := by
+  have h := (rcptPhase_spec s lr (to.filter (fun r => dom r == d)) (initState tk) (hnd.filter _)).2
+  unfold hopRun
+  rw [h, initState_acc]; simp
+
+theorem hopAcked_mem (tk : TKind) (s : Script) (lr : Addr → Bool) (dom : Addr → Nat) (to : List Addr)
+    (hnd : to.Nodup) (d : Nat) (r : Addr) (h : r ∈ hopAcked tk s lr dom to d) :
+    r ∈ to ∧ dom r = d := by
+  have hacc := hopRun_acc tk s lr dom to hnd d
+  have hnd' : (sessOf (hopRun tk s lr dom to d).1).acc.Nodup := by
+    rw [hacc]; exact (hnd.filter _).filter _
+  have hc := dataPhase_spec tk s (sessOf (hopRun tk s lr dom to d).1) hnd' r
+  have hpos : 0 < (hopAcked tk s lr dom to d).count r := List.count_pos_iff.mpr h
+  unfold hopAcked at hpos
+  rw [hc] at hpos
+  split at hpos
+  · rename_i hh
+    have := hh.1
+    rw [hacc] at this
+    have := (List.mem_filter.mp (List.mem_filter.mp this).1)
+    exact ⟨this.1, by simpa using this.2⟩
+  · omega
+
+
+theorem commitCount_start_fail (k : Kind) (p : Plan) (to : List Addr) (r : Addr)
+    (hs : p.start.isOk = false) : commitCount r (deliver k p to).2 = 0 := by
+  unfold deliver
+  simp [hs, commitCount]
+
+/-- **C01 (the target tells the queue the truth about a misbehaving next hop).** In one attempt
+against next hops that fail at MAIL, in the middle of the RCPT phase, at DATA or at teardown, the
+recipients the hops acknowledged (250 after the final dot) are exactly the ones the queue counts
+as committed, each once: a recipient for which the target reports no error was acknowledged, and
+one that was not acknowledged is reported with an error. -/
+theorem C01_hop_attempt_truthful (tk : TKind) (s : Script) (lr : Addr → Bool) (dom : Addr → Nat)
+    (nd : Nat) (to : List Addr) (hnd : to.Nodup) (hdom : ∀ r ∈ to, dom r < nd)
+    (hone : tk ≠ .remote → ∀ r ∈ to, dom r = 0) (r : Addr) :
+    (attemptAcked tk s lr dom nd to).count r =
+      commitCount r (deliver tk.kind (hopPlan tk s lr dom to) to).2 := by
+  unfold attemptAcked
+  by_cases hst : (startCls tk s).isOk = true
+  · simp only [hst, ↓reduceIte]
+    have hds := deliver_spec tk.kind (hopPlan tk s lr dom to) to hnd r
+    by_cases hr : r ∈ to
+    · rw [hds.2.2 hr]
+      have hs : (hopPlan tk s lr dom to).start = .ok := by
+        have : (hopPlan tk s lr dom to).start = startCls tk s := rfl
+        rw [this]; cases h : startCls tk s <;> simp_all [Cls.isOk]
+      rw [deliver_errs_none tk.kind _ to r hs rfl hr]
+      rw [count_flatMap_unique (List.range nd) _ r (dom r) List.nodup_range
+        (List.mem_range.mpr (hdom r hr))
+        (fun d _ hne hmem => hne (hopAcked_mem tk s lr dom to hnd d r hmem).2.symm)]
+      -- the hop of `r`
+      have hacc := hopRun_acc tk s lr dom to hnd (dom r)
+      have hnd' : (sessOf (hopRun tk s lr dom to (dom r)).1).acc.Nodup := by
+        rw [hacc]; exact (hnd.filter _).filter _
+      have hc := dataPhase_spec tk s (sessOf (hopRun tk s lr dom to (dom r)).1) hnd' r
+      unfold hopAcked
+      rw [hc]
+      have hmem : r ∈ (sessOf (hopRun tk s lr dom to (dom r)).1).acc ↔
+          ((hopPlan tk s lr dom to).rcpt r).isOk = true := by
+        rw [hacc]
+        simp [List.mem_filter, hr, hopPlan]
+      have hbody : r ∈ (sessOf (hopRun tk s lr dom to (dom r)).1).acc →
+          (lookupCls (dataPhase tk s (sessOf (hopRun tk s lr dom to (dom r)).1)).1 r).isOk =
+            bodyOk tk.kind (hopPlan tk s lr dom to) r := by
+        intro hin
+        cases tk with
+        | remote => rfl
+        | lmtp => rfl
+        | smtp =>
+          have h0 : dom r = 0 := hone (by decide) r hr
+          simp only [TKind.kind, bodyOk, hopPlan, dataPhase]
+          rw [lookupCls_map_const]
+          simp only [hin, ↓reduceIte]
+          rw [h0]
+      by_cases hin : r ∈ (sessOf (hopRun tk s lr dom to (dom r)).1).acc
+      · rw [hbody hin]
+        have := hmem.mp hin
+        simp [hin, this]
+      · have : ((hopPlan tk s lr dom to).rcpt r).isOk = false := by
+          cases h : ((hopPlan tk s lr dom to).rcpt r).isOk
+          · rfl
+          · exact absurd (hmem.mpr h) hin
+        simp [hin, this]
+    · rw [hds.2.1 hr]
+      exact count_flatMap_zero _ _ r
+        (fun d _ hmem => hr (hopAcked_mem tk s lr dom to hnd d r hmem).1)
+  · have hst' : (startCls tk s).isOk = false := by simpa using hst
+    simp only [hst', Bool.false_eq_true, ↓reduceIte]
+    rw [commitCount_start_fail _ _ _ _ (by exact hst')]
+    simp
+
+
+/-! ### the whole life of a message on a forwarding target -/
+
+/-- Pending state before attempt `i` (`none` = already removed). -/
+def hopMetaAt (maxTries : Nat) (tk : TKind) (dsn : Bool) (scripts : Nat → Script) (lr : Addr → Bool)
+    (dom : Addr → Nat) (m0 : Meta) : Nat → Option Meta
+  | 0 => some m0
+  | i + 1 =>
+    match hopMetaAt maxTries tk dsn scripts lr dom m0 i with
+    | none => none
+    | some m => (tryDelivery maxTries tk.kind dsn (hopPlan tk (scripts i) lr dom m.to) m).1
+
+/-- The fault plans the queue meets, attempt by attempt, on top of a forwarding target. -/
+def hopPlans (maxTries : Nat) (tk : TKind) (dsn : Bool) (scripts : Nat → Script) (lr : Addr → Bool)
+    (dom : Addr → Nat) (m0 : Meta) : Nat → Plan := fun i =>
+  match hopMetaAt maxTries tk dsn scripts lr dom m0 i with
+  | some m => hopPlan tk (scripts i) lr dom m.to
+  | none => hopPlan tk (scripts i) lr dom []
+
+/-- The queue on a forwarding target is an instance of the queue against a stream of fault plans:
+everything proved for `Queue.run` holds for it. -/
+theorem runHop_events (maxTries : Nat) (tk : TKind) (dsn : Bool) (scripts : Nat → Script)
+    (lr : Addr → Bool) (dom : Addr → Nat) (nd : Nat) (m0 : Meta) :
+    ∀ (fuel j : Nat) (m : Meta), hopMetaAt maxTries tk dsn scripts lr dom m0 j = some m →
+      (runHop maxTries tk dsn scripts lr dom nd fuel j m).1 =
+        run maxTries tk.kind dsn (hopPlans maxTries tk dsn scripts lr dom m0) fuel j m := by
+  intro fuel
+  induction fuel with
+  | zero => intro j m _; rfl
+  | succ fuel ih =>
+    intro j m hm
+    have hp : hopPlans maxTries tk dsn scripts lr dom m0 j = hopPlan tk (scripts j) lr dom m.to := by
+      simp [hopPlans, hm]
+    simp only [runHop, run, hp]
+    cases hres : tryDelivery maxTries tk.kind dsn (hopPlan tk (scripts j) lr dom m.to) m with
+    | mk om evs =>
+      cases om with
+      | none => rfl
+      | some m' =>
+        simp only
+        have hm' : hopMetaAt maxTries tk dsn scripts lr dom m0 (j + 1) = some m' := by
+          simp [hopMetaAt, hm, hres]
+        rw [ih (j + 1) m' hm']
+
+theorem tryDelivery_commitCount (maxTries : Nat) (k : Kind) (dsn : Bool) (p : Plan) (m : Meta) (r : Addr) :
+    commitCount r (tryDelivery maxTries k dsn p m).2 = commitCount r (deliver k p m.to).2 := by
+  unfold tryDelivery
+  simp only
+  split <;> (simp only [commitCount_append]; split <;> simp [commitCount])
+
+/-- Over the whole life of the message the hops' ground truth agrees with the queue's view. -/
+theorem runHop_acked (maxTries : Nat) (tk : TKind) (scripts : Nat → Script) (lr : Addr → Bool)
+    (dom : Addr → Nat) (nd : Nat) (r : Addr) :
+    ∀ (fuel i : Nat) (m : Meta), m.to.Nodup → (∀ x ∈ m.to, dom x < nd) →
+      (tk ≠ .remote → ∀ x ∈ m.to, dom x = 0) →
+      (runHop maxTries tk true scripts lr dom nd fuel i m).2.count r =
+        commitCount r (runHop maxTries tk true scripts lr dom nd fuel i m).1 := by
+  intro fuel
+  induction fuel with
+  | zero => intro i m _ _ _; rfl
+  | succ fuel ih =>
+    intro i m hnd hdom hone
+    have hatt := C01_hop_attempt_truthful tk (scripts i) lr dom nd m.to hnd hdom hone r
+    have htc := tryDelivery_commitCount maxTries tk.kind true (hopPlan tk (scripts i) lr dom m.to) m r
+    have hmeta := step_meta maxTries tk.kind (hopPlan tk (scripts i) lr dom m.to) m hnd
+    simp only [runHop]
+    cases hres : tryDelivery maxTries tk.kind true (hopPlan tk (scripts i) lr dom m.to) m with
+    | mk om evs =>
+      rw [hres] at htc hmeta
+      cases om with
+      | none => simp only; rw [hatt, htc]
+      | some m' =>
+        simp only
+        obtain ⟨hnd', _, hsub⟩ := hmeta.1 m' rfl
+        rw [List.count_append, commitCount_append, hatt, htc,
+          ih (i + 1) m' hnd' (fun x hx => hdom x (hsub x hx)) (fun h x hx => hone h x (hsub x hx))]
+
+/-- **C01 on a forwarding target (exactly one terminal outcome, measured at the next hop).** For
+every `maxTries ≥ 1`, each of the three forwarding targets, every stream of per-attempt next-hop
+scripts (faults at MAIL, a recipient limit answered 4xx/5xx/421, the connection closed, reset or
+silent in the middle of the RCPT phase, faults at DATA, after the final dot and at teardown) and
+every duplicate-free recipient list: every recipient is acknowledged by a next hop exactly once
+and never reported, or named in exactly one failure report and never acknowledged; nobody else
+is acknowledged or reported; the message leaves the spool within `maxTries` attempts. -/
+theorem C01_hop_exactly_one_outcome (maxTries : Nat) (tk : TKind) (scripts : Nat → Script)
+    (lr : Addr → Bool) (dom : Addr → Nat) (nd : Nat) (to : List Addr)
+    (hmt : 0 < maxTries) (hnd : to.Nodup) (hne : to ≠ []) (hdom : ∀ r ∈ to, dom r < nd)
+    (hone : tk ≠ .remote → ∀ r ∈ to, dom r = 0) :
+    let res := runHop maxTries tk true scripts lr dom nd maxTries 0 ⟨to, fun _ => 0⟩
+    (∀ r ∈ to, (res.2.count r = 1 ∧ reportCount r res.1 = 0) ∨
+               (res.2.count r = 0 ∧ reportCount r res.1 = 1)) ∧
+    (∀ r, r ∉ to → res.2.count r = 0 ∧ reportCount r res.1 = 0) ∧
+    res.1.getLast? = some Ev.removed := by
+  intro res
+  have hev : res.1 = run maxTries tk.kind true
+      (hopPlans maxTries tk true scripts lr dom ⟨to, fun _ => 0⟩) maxTries 0 ⟨to, fun _ => 0⟩ :=
+    runHop_events maxTries tk true scripts lr dom nd ⟨to, fun _ => 0⟩ maxTries 0 ⟨to, fun _ => 0⟩ rfl
+  have hak : ∀ r, res.2.count r = commitCount r res.1 := fun r =>
+    runHop_acked maxTries tk scripts lr dom nd r maxTries 0 ⟨to, fun _ => 0⟩ hnd hdom hone
+  have hmain := C01_exactly_one_outcome maxTries tk.kind
+    (hopPlans maxTries tk true scripts lr dom ⟨to, fun _ => 0⟩) to hmt hnd hne
+  simp only at hmain
+  rw [← hev] at hmain
+  refine ⟨?_, ?_, hmain.2.2⟩
+  · intro r hr; rw [hak r]; exact hmain.1 r hr
+  · intro r hr; rw [hak r]; exact hmain.2.1 r hr
+
+/-! ### non-vacuity of the hop theorems
+
+`Script` has no field for the answer to RSET/QUIT: `remoteDelivery.Close` and `smtpconn.C.Close`
+never return its failure, so teardown faults cannot change an outcome.
+
+Three recipients of one domain over target.remote. Attempt 0: the hop accepts one recipient per
+transaction and answers 452 to the others; attempt 1: the same limit answered with 421 and the
+connection closed (the accepted recipient's DATA then fails as well); attempt 2: no fault. -/
+def demoScript : Nat → Script := fun i =>
+  { mailN := 0, mailF := ⟨.temp, false⟩, limit := if i < 2 then some 1 else none,
+    limF := ⟨.temp, decide (i = 1)⟩, rej := fun _ => none,
+    dataCmd := none, dataEnd := none, lmtpSt := fun _ => none, lmtpDrop := none }
+
+example :
+    (runHop 3 .remote true demoScript (fun _ => false) (fun _ => 0) 1 3 0 ⟨[1, 2, 3], fun _ => 0⟩).2
+      = [1, 2, 3] ∧
+    (runHop 2 .remote true demoScript (fun _ => false) (fun _ => 0) 1 2 0 ⟨[1, 2, 3], fun _ => 0⟩).2
+      = [1] ∧
+    reportCount 3
+      (runHop 2 .remote true demoScript (fun _ => false) (fun _ => 0) 1 2 0 ⟨[1, 2, 3], fun _ => 0⟩).1
+      = 1 := by decide
+
+/-- the hypotheses of `C01_hop_exactly_one_outcome` are satisfiable -/
+example := C01_hop_exactly_one_outcome 3 .remote demoScript (fun _ => false) (fun _ => 0) 1 [1, 2, 3]
+  (by decide) (by decide) (by decide) (by intro r _; decide) (by intro h; exact absurd rfl h)
 
 end MaddyVerif.C01
